@@ -61,13 +61,15 @@ Definition tupd (s : tfs) (p : fpath) (v : option tcontent) : tfs := fun q => if
 Inductive top :=
 | OCreate (p : fpath) (t : N)      (* open(p, O_CREAT|O_TRUNC) and first writes by task t *)
 | OFinish (p : fpath) (t : N)      (* last write and close: p holds exactly t's data (nothing if p was unlinked meanwhile) *)
-| ORename (a b : fpath).           (* rename a over b; fails (no effect) when a does not exist *)
+| ORename (a b : fpath)            (* rename a over b; fails (no effect) when a does not exist *)
+| ORemove (p : fpath).             (* --delete: remove p; already gone counts as done *)
 
 Definition tapply (o : top) (s : tfs) : tfs :=
   match o with
   | OCreate p t => tupd s p (Some (TTorn t))
   | OFinish p t => match s p with Some _ => tupd s p (Some (TNew t)) | None => s end
   | ORename a b => match s a with Some c => tupd (tupd s b (Some c)) a None | None => s end
+  | ORemove p => tupd s p None
   end.
 
 Definition touches (o : top) : list fpath :=
@@ -75,15 +77,17 @@ Definition touches (o : top) : list fpath :=
   | OCreate p _ => [p]
   | OFinish p _ => [p]
   | ORename a b => [a; b]
+  | ORemove p => [p]
   end.
 
-Inductive tkind := KDelta | KDirect.   (* update through a working file + rename | fs::copy straight onto the destination *)
+Inductive tkind := KDelta | KDirect | KDelete.   (* update through a working file + rename | fs::copy straight onto the destination | --delete of a stale entry *)
 Record ttask := { tk_id : N; tk_dest : fpath; tk_kind : tkind }.
 
 Definition prog (tn : fpath -> fpath) (t : ttask) : list top :=
   match tk_kind t with
   | KDirect => [OCreate (tk_dest t) (tk_id t); OFinish (tk_dest t) (tk_id t)]
   | KDelta => [OCreate (tn (tk_dest t)) (tk_id t); OFinish (tn (tk_dest t)) (tk_id t); ORename (tn (tk_dest t)) (tk_dest t)]
+  | KDelete => [ORemove (tk_dest t)]
   end.
 
 (* an execution: operations tagged with the index of the task that issues them *)
